@@ -859,3 +859,27 @@ def from_highest_segment_on_disk(f, o):
     """the value derives from a listing of the WAL directory (directly or through a helper of the WAL manager)"""
     pats = {"wal::get_segment_range", "get_segment_range", "wal::list_segment_ids", "list_segment_ids"}
     return any((c.names & pats) or f.call_may_reach(c, pats) for c in o.calls)
+
+
+def rule_resume_offset_exact(cx):
+    """When an existing segment is reopened, the writer's position inside the 32 KiB block is re-derived from the file
+    size.  Writer and reader agree on the framing only if that position is EXACTLY `file length mod BLOCK_SIZE`: the live
+    writer pads a block tail shorter than a header with zero bytes ON DISK before moving on, so a resumed writer that
+    merely pretends to be at the next block start (offset 0 without writing the padding) frames every later record 1..6
+    bytes off, and the next open lands inside a header.  Decided: the offset handed to the resumed `Writer` has one
+    definition, a remainder by the block size, with no other constant and no conditional re-assignment."""
+    f = cx.f
+    b = f.body("Wal::create_writer")
+    n = 0
+    for c in sites(cx, b, "wal::writer::Writer::new", minimum=2):
+        o = origin_of_operand(b, c.args[3])
+        if not (o.from_call("std::fs::Metadata::len") or "Rem" in o.ops):
+            continue
+        n += 1
+        other_consts = [k for k in o.consts if not (k.get("cdef") or "").endswith("BLOCK_SIZE")]
+        other_ops = {x for x in o.ops if x.split("(")[0] not in ("Rem",)}
+        cx.check(not other_consts and not other_ops, "the resumed writer's block offset is exactly `file length % BLOCK_SIZE`", "resume-offset-adjusted", c.where(),
+                 "Wal::create_writer adjusts the resumed block offset (%s): the position no longer equals `file length %% BLOCK_SIZE`, so records appended after a reopen are "
+                 "framed against block boundaries the reader does not share -- the next open reports corruption inside its own cleanly written segment (or repair drops the "
+                 "session's commits)" % ", ".join(sorted(other_ops) + ["constant %s" % (k.get("v") or k.get("cdef")) for k in other_consts]))
+    cx.floor("resumed-writer sites", n, 1)
